@@ -228,6 +228,11 @@ func (matrix *SparseReal64Matrix) SetIdentity() {
       it.Get().Reset()
     }
   }
+  // diagonal entries that are not stored yet
+  n, m := matrix.Dims()
+  for i := 0; i < n && i < m; i++ {
+    matrix.At(i, i).Set(c)
+  }
 }
 func (matrix *SparseReal64Matrix) Reset() {
   for it := matrix.Iterator(); it.Ok(); it.Next() {
